@@ -219,14 +219,28 @@ def fold_loop_form(an, owners, N, self_val, init_val):
     from ..loops import find_loops
     from ..absint import State
     lps = [lp for lp in find_loops(an) if lp.slot_ptrs()]
-    if len(lps) != 1:
+    counting = [lp for lp in find_loops(an) if is_count_range(lp.pipe, N)] if not lps else []
+    if len(lps) != 1 and len(counting) != 1:
         return False, "neither a fold nor one loop over the source found (loops over storage: %d)" % len(lps)
-    lp = lps[0]
-    src_ok = not lp.backward and full_slice(an, lp.nxt.facts, lp.pipe, N, consumer_array_base(an, lp.nxt, owners)(self_val))
+    lp = lps[0] if lps else counting[0]
     fcalls = [c for c in lp.calls() if c.fn == "core::ops::FnMut::call_mut"]
     once = lp.count_on_paths(lambda c: c.fn == "core::ops::FnMut::call_mut") == {1}
-    slots = lp.slot_ptrs()
-    rs = [c for c in lp.calls() if c.fn == "core::ptr::read" and len(slots) == 1 and c.args[0][:3] == slots[0][:3]]
+    if lps:
+        src_ok = not lp.backward and full_slice(an, lp.nxt.facts, lp.pipe, N, consumer_array_base(an, lp.nxt, owners)(self_val))
+        slots = lp.slot_ptrs()
+        rs = [c for c in lp.calls() if c.fn == "core::ptr::read" and len(slots) == 1 and c.args[0][:3] == slots[0][:3]]
+    else:
+        # counting form: `for _ in 0..N { acc = f(acc, consumer.take_next()) }` - the element the consumer's own cursor designates, the consumer
+        # made from self with cursor 0 when the loop starts (C04.O shows the cursor advances by one per step and stays inside the storage)
+        evs = lp.events(Classifier(an.db))
+        rs = [e[4] for evl in evs.values() for e in evl if e[2] == "read" and e[3].startswith("('cur'")]
+        src_ok = False
+        if len(rs) == 1:
+            L = rs[0].args[0][1][1][1]
+            adt = local_adt(an, L)
+            o = owners.get(adt)
+            made = [c for c in an.calls if c.term.get("dest") and c.term["dest"]["l"] == L and not c.term["dest"]["p"] and c.ret is not None and c.ret[0] == "A" and an.dominates(c.bb, lp.nxt.bb)]
+            src_ok = o is not None and not lp.backward and len(made) == 1 and made[0].ret[2][o["array"]] == self_val and all(made[0].ret[2][i] == ("I", Poly.const(0)) for i in o["pos"])
     ok_args = acc_ok = ret_ok = init_ok = False
     if len(fcalls) == 1 and len(rs) == 1 and lp.count_on_paths(lambda c: c in rs) == {1}:
         fc = fcalls[0]
@@ -264,6 +278,45 @@ def consumer_array_base(an, cs, owners):
     return mk
 
 
+def is_count_range(t, N):
+    return isinstance(t, tuple) and len(t) == 3 and t[0] == "A" and isinstance(t[1], tuple) and t[1][:2] == ("adt", "core::ops::Range") and t[2][0] == ("I", Poly.const(0)) and t[2][1] == ("I", N)
+
+
+def cursor_reads(ctx, cfg, an, call, cv, owners):
+    """For a closure value `cv` driven by `call` in body `an`: {ret value of a cursor read in the closure: (owner local, value the consumer was
+    made from)} for every read of the slot an `ArrayConsumer` upvar's own cursor designates, provided that consumer's cursor is 0 at `call`
+    (so the k-th invocation moves out element k). None if the closure cannot be resolved."""
+    from ..typestate import cursor_slot
+    from ..absint import State
+    cb, ca = closure_body(ctx, cfg, cv)
+    if ca is None:
+        return None
+    # each invocation moves out exactly one element per consumer and advances that consumer's cursor by exactly one (else the k-th call
+    # would not see element k)
+    from ..typestate import check_closure_protocol
+    role, _ok, _det, info = check_closure_protocol(ca, Classifier(an.db))
+    if role != "consumer" or info["normal_problems"]:
+        return None
+    out = {}
+    for c in ca.calls:
+        if c.fn in ("core::ptr::read", "core::ptr::read_unaligned") and c.args[0][0] == "P" and cursor_slot(c.args[0]) is not None:
+            ku, farr, fpos = cursor_slot(c.args[0])
+            op = cv[2][ku] if ku < len(cv[2]) else None
+            if not (op is not None and op[0] == "P" and op[1][0] == "local" and not op[2].t):
+                return None
+            L = op[1][1]
+            adt = local_adt(an, L)
+            if adt not in owners or farr != owners[adt]["array"] or fpos not in owners[adt]["pos"]:
+                return None
+            st = State(call.mem, call.facts)
+            pv = an.read_cell(st, ("local", L), (fpos,), {"k": "prim", "n": "usize"})
+            av = an.read_cell(st, ("local", L), (farr,), None)
+            if pv != ("I", Poly.const(0)):
+                return None
+            out[repr(c.ret)] = (c.ret, L, av)
+    return out
+
+
 def check_map_fold(ctx, cfg):
     rule = "C08.M"
     db = ctx.db(cfg)
@@ -297,8 +350,20 @@ def check_map_fold(ctx, cfg):
                 once, args_ok, call = check_f_call(ca, [v]) if v is not None else (False, False, None)
                 c_ok = once and args_ok and call is not None and all(r["val"] == call.ret for r in ca.returns)
             good = shape and src_ok and c_ok and not bad_adaptors(pipe)
+            det_ = "from_iter(map(iter over the whole source array (forward), cl)): %s/%s; closure = f(read(slot)) once, result yielded: %s; no reordering adaptor: %s" % (shape, src_ok, c_ok, not bad_adaptors(pipe))
+            if not good and shape and is_count_range(pipe[3], N):
+                # counting form: from_iter((0..N).map(cl)), the closure moving out the element the source consumer's own cursor designates
+                # (cursor 0 at the start, advanced by one per call: the k-th call yields f(self[k]))
+                cr = cursor_reads(ctx, cfg, an, f, pipe[4], owners)
+                cb, ca = closure_body(ctx, cfg, pipe[4])
+                if cr is not None and len(cr) == 1 and ca is not None:
+                    (v, L, av), = cr.values()
+                    once, args_ok, call = check_f_call(ca, [v])
+                    from_self = av == ("V", "arg", 1)
+                    good = bool(once and args_ok and call is not None and all(r["val"] == call.ret for r in ca.returns) and from_self)
+                    det_ = "from_iter((0..N).map(cl)), the closure moving out the element the consumer's own cursor designates (consumer made from self, cursor 0 at the start): %s; closure = f(that element) once, result yielded: %s" % (from_self, bool(once and args_ok))
             ok = ok and good
-            dets.append("from_iter(map(iter over the whole source array (forward), cl)): %s/%s; closure = f(read(slot)) once, result yielded: %s; no reordering adaptor: %s" % (shape, src_ok, c_ok, not bad_adaptors(pipe)))
+            dets.append(det_)
         others = [c.fn for c in an.calls if c.fn.startswith("core::iter::") and c.fn.split("::")[-1] in ("fold", "rfold", "for_each", "try_fold", "collect")]
         ok = ok and not others and all(any(r["val"] == f.ret for f in fi) or r["val"][0] == "V" for r in an.returns)
         ctx.ob(rule, key, ok, "; ".join(dets) if dets else "no from_iter pipeline found", at=b["at"], cfg=cfg)
@@ -402,6 +467,46 @@ def check_zip_body(ctx, cfg, key, branches):
             dets.append("zip(%s, %s) sides match spec: %s; closure calls f(left, right) exactly once with the paired items: %s" % (left[0], right[0], sides, c_ok))
         else:
             dets.append("pipeline is not from_iter(map(zip(A, B), closure)) or contains a reordering adaptor %s" % bad_adaptors(pipe))
+        N_c = N
+        if N_c is None and isinstance(pipe, tuple) and len(pipe) == 5 and pipe[:3] == ("V", "iter", "map"):
+            # a trait-provided body: the length is the associated `Length` of Self; take it from the consumer the closure uses (its storage has
+            # exactly that many slots), to be matched against the counting range's upper bound below
+            cr0 = cursor_reads(ctx, cfg, an, fi, pipe[4], owners)
+            if cr0:
+                L0 = next(iter(cr0.values()))[1]
+                N_c = an.tenv.length([x for x in an.local_ty(L0)["args"] if x.get("k") != "region"][-1])
+        if not ok and isinstance(pipe, tuple) and len(pipe) == 5 and pipe[:3] == ("V", "iter", "map") and not bad_adaptors(pipe) and N_c is not None:
+            N = N_c
+            # counting form: a "slice" side is not in the pipeline; the closure moves out the element that side's consumer designates by its own
+            # cursor (0 at the start, +1 per call), while a counting range 0..N stands in the pipeline and caps the number of pairs at N. The
+            # other side, if it is a by-value sequence, is zipped with the range: from_iter((0..N).zip(other).map(cl)) / from_iter((0..N).map(cl))
+            X = pipe[3]
+            other = None
+            if is_count_range(X, N):
+                shape2 = True
+            elif isinstance(X, tuple) and len(X) == 5 and X[:3] == ("V", "iter", "zip") and is_count_range(X[3], N):
+                shape2, other = True, X[4]
+            else:
+                shape2 = False
+            cr = cursor_reads(ctx, cfg, an, fi, pipe[4], owners) if shape2 else None
+            cb, ca = closure_body(ctx, cfg, pipe[4]) if shape2 else (None, None)
+            if cr is not None and ca is not None:
+                want, sides2 = [], []
+                for (how, fld) in argspec:   # f's arguments in order; fld names the side (0 = left, 1 = right) the argument comes from
+                    kind, val = (left, right)[fld]
+                    if kind == "slice":
+                        hit = [v for (v, L, av) in cr.values() if av == val]
+                        sides2.append(len(hit) == 1)
+                        want.append(hit[0] if len(hit) == 1 else None)
+                    else:
+                        okside = other is not None and (other == val if kind == "value" else other == ("V", "iter", "into_iter", val))
+                        sides2.append(bool(okside))
+                        want.append(slot_val(1))   # item = (index, other's item)
+                if None not in want and all(sides2) and len(cr) == sum(1 for (kind, _v) in (left, right) if kind == "slice"):
+                    once, args_ok, call = check_f_call(ca, want)
+                    ok = bool(once and args_ok and call is not None and all(r["val"] == call.ret for r in ca.returns))
+                    dets[-1] = "counting form over 0..N: the %s side(s) moved out by their consumers' own cursors (made from the right operands, cursor 0 at the start), the other side zipped with the range: %s; closure calls f(left, right) exactly once with the paired items: %s" % (
+                        "/".join(k for (k, _v) in (left, right) if k == "slice"), sides2, ok)
         ok_all = ok_all and ok
     rets = all(any(r["val"] == fi.ret for fi in fis) or r["val"][0] == "V" for r in an.returns)
     ctx.ob(rule, key, ok_all and rets, "; ".join(dets) if dets else "no from_iter pipeline found", at=b["at"], cfg=cfg)
